@@ -140,6 +140,11 @@ def check_evolution(case: typing.Any, ctx: Ctx) -> Info:
 
     data_old, _ = guarded(pydsdl.serialize, t_old, codec.to_python(c_old, v_old), what="serialize-old")
     data_new, _ = guarded(pydsdl.serialize, t_new, codec.to_python(c_new, v_new), what="serialize-new")
+    # what goes over the wire is the Specification's encoding of each revision (otherwise nothing below means anything; the model is
+    # cross-checked against the reference decoder on bytes that the reference encoder produced, never on the library's)
+    for what, spec_, v_, data_ in (("old", c_old, v_old, data_old), ("new", c_new, v_new, data_new)):
+        ref_bytes = codec.bits_to_bytes(codec.encode(spec_, v_, False).bits)
+        require(data_ == ref_bytes, "revision-encoding:" + what, ref_bytes.hex(), data_.hex() if isinstance(data_, bytes) else repr(data_), "%s value %r" % (layout.type_string(spec_)[:250], v_))
 
     # old writer -> new reader: fields unknown to the writer read as zero / empty, the rest is intact
     got = cc.deserialize_outcome(t_new, c_new, data_old, False, what="deserialize-new-from-old")
